@@ -5,6 +5,7 @@ import (
 	"sort"
 	"strings"
 	"testing"
+	"time"
 
 	"github.com/weedbox/pokertable"
 
@@ -159,8 +160,60 @@ func c02Body(c *run.Ctx) {
 	hooks.AtDecision = func(s *sim.Sim, d *sim.Decision) {
 		callsBefore = s.BE.NumCalls()
 	}
+	responded := map[string]bool{}
+	var askedNow []string
+	userAt := hooks.AtDecision
+	hooks.AtDecision = func(s *sim.Sim, d *sim.Decision) {
+		userAt(s, d)
+		if d.Kind != "turn" {
+			responded = map[string]bool{}
+			askedNow = d.Asked
+		}
+	}
 	hooks.AfterAct = func(s *sim.Sim, a *sim.ActionRec) {
-		if a.Err != nil || a.Kind == "ready" || a.Kind == "pay" {
+		if a.Kind == "ready" || a.Kind == "pay" {
+			callsBefore = s.BE.NumCalls()
+			if a.Err != nil {
+				return
+			}
+			// a response is booked on the submitter's own entry: after it has been processed the
+			// hand's ready group shows exactly the entries of the players who responded so far
+			responded[a.PID] = true
+			if len(responded) >= len(askedNow) {
+				return // the group completes and is re-armed for the next request
+			}
+			rg := pokertable.VerifGameReadyGroup(s.TE)
+			if rg == nil {
+				return
+			}
+			ok := false
+			var st map[int64]bool
+			for i := 0; i < 400 && !ok; i++ {
+				st = rg.GetParticipantStates()
+				ok = true
+				for gi, ready := range st {
+					if int(gi) >= len(M) || ready != responded[M[gi]] {
+						ok = false
+					}
+				}
+				if !ok {
+					time.Sleep(250 * time.Microsecond)
+				}
+			}
+			if !ok {
+				got := []string{}
+				for gi, ready := range st {
+					if ready && int(gi) < len(M) {
+						got = append(got, M[gi])
+					}
+				}
+				sort.Strings(got)
+				c.Failf("C02.response-attribution", "hand %d: %s by %s was accepted, but the hand has booked responses for %v while %v responded (list %v)", s.Cur.N, a.Kind, a.PID, got, sortedKeys(responded), M)
+			}
+			s.Label("response_attribution_checked")
+			return
+		}
+		if a.Err != nil {
 			callsBefore = s.BE.NumCalls()
 			return
 		}
@@ -191,6 +244,13 @@ func c02Body(c *run.Ctx) {
 		RearmOnLeave: true,
 	}
 	o.BeforeHand = func(s *sim.Sim, n int) bool { firstChecked = false; return true }
+	o.OnStall = func(s *sim.Sim, h *sim.Hand) {
+		// a response or action of a dealt-in player, which the published hand state asks for,
+		// refused with "player not found": the submitter was translated to the wrong entry
+		if h.Opened != nil && strings.Contains(s.Stall, "refused") && strings.Contains(s.Stall, "player not found") {
+			c.Failf("C02.own-entry-not-found", "hand %d: %s (list %v)", h.N, s.Stall, h.M)
+		}
+	}
 	o.AfterHand = func(s *sim.Sim, h *sim.Hand) {
 		if h.SettledT == nil || h.After == nil {
 			return
